@@ -13,7 +13,8 @@ RULE = ("configuration include trees of up to 5 resources (random shapes, nested
         "a syntax error at step k of j, a conversion failure at the end; schema graphs (extends chains, <import src>, component "
         "packages, %import incl. repeated imports) with malformed / missing members. Real events (URL stream open/close via a "
         "wrapped urllib.request.urlopen, Resource open/close via a tracking Resource class) are compared with the model's "
-        "trace and checked well-bracketed with everything closed. non-trivial = at least 2 resources; distinct by (tree, fault)")
+        "trace and checked well-bracketed with everything closed; one ConfigLoader object serves all loads of a tree and after "
+        "every load the corrected files are loaded again by it and by a fresh loader (equal results required). non-trivial = at least 2 resources; distinct by (tree, fault)")
 
 
 class Tracker:
@@ -172,6 +173,8 @@ def run(ctx):
                     pts = [[Atom(fault[0])] + list(fault[1:])]
                 mreqs.append([Atom("resrun"), pts, 0, st])
             mans = core.driver_batch(mreqs) if ctx.driver_ok else [None] * len(faults)
+            from ZConfig.loader import ConfigLoader
+            reused = ConfigLoader(schema)     # one loader object serves every load of this tree, failed ones included
             for fault, ma in zip(faults, mans):
                 root = tempfile.mkdtemp(prefix="zcv-c19-", dir=base)
                 try:
@@ -184,7 +187,7 @@ def run(ctx):
                     if fault is not None and fault[0] == "read":
                         tr.read_fail.add(url_of(fault[1]))
                     try:
-                        ZConfig.loadConfig(schema, main)
+                        reused.loadURL(main)
                         ended = "ok"
                     except ZConfig.ConfigurationError:
                         ended = "cfg"
@@ -193,6 +196,26 @@ def run(ctx):
                     except Exception as e:
                         ended = "other:" + type(e).__name__
                     ctx.evaluations += 1
+                    first_events, first_leaks = list(tr.events), tr.leaks()
+                    # "a failed load leaves nothing behind that changes the outcome of later loads": the corrected files,
+                    # same names, loaded again by the SAME loader object, against a fresh loader
+                    tr.reset()
+                    materialise(root, steps, 0, None)
+                    follow = []
+                    for ldr in (reused, ConfigLoader(schema)):
+                        try:
+                            c2, _ = ldr.loadURL(main)
+                            follow.append(["ok", list(c2.k)])
+                        except Exception as e:
+                            follow.append(["exc", type(e).__name__, str(e)[:120]])
+                    ctx.evaluations += 1
+                    if follow[0] != follow[1]:
+                        ctx.violate("after a load that ended %s (fault %r) the same loader gives %r for the corrected files, a fresh "
+                                    "loader %r" % (ended, fault, follow[0], follow[1]),
+                                    {"tree": steps, "fault": fault, "ended": ended, "same_loader": follow[0], "fresh_loader": follow[1]},
+                                    signature="C19:state-left-behind:%s" % (fault[0] if fault else "none"))
+                    follow_leaks = tr.leaks()
+                    tr.events, _saved = first_events, tr.events
                     ctx.count("fault:%s" % (fault[0] if fault else "none"))
                     ctx.count("ended:" + ended)
                     if nres >= 2:
@@ -200,7 +223,7 @@ def run(ctx):
                     ids = {url_of(i): i for i in range(nres)}
                     real = [[k, ids.get(u, -1)] for k, u in tr.events]
                     rep = {"tree": steps, "fault": fault, "real_events": real, "ended": ended}
-                    leaks = tr.leaks()
+                    leaks = first_leaks + follow_leaks
                     if leaks:
                         ctx.violate("after the load (%s) these were still open: %r" % (ended, [(k, ids.get(u, u)) for k, u in leaks]), rep,
                                     signature="C19:leak:%s:%s" % (leaks[0][0], fault[0] if fault else "none"))
